@@ -64,6 +64,20 @@ def vfold {σ : Type} (f : σ → Rat → σ) (init : σ) (xs : List (Option Rat
     | some x => f acc x
     | none => acc) init
 
+/-- `v >= max` where `max` is either a stored value or still the sentinel `T::MIN` (`none`) -/
+def geS (v : Rat) : Option Rat → Bool
+  | none => true
+  | some m => decide (m ≤ v)
+/-- `v <= min` where `min` is either a stored value or still the sentinel `T::MAX` (`none`) -/
+def leS (v : Rat) : Option Rat → Bool
+  | none => true
+  | some m => decide (v ≤ m)
+/-- `max != min` for a `T::MIN`-initialised and a `T::MAX`-initialised cache: a sentinel differs from
+every stored value and from the other sentinel -/
+def sentNe : Option Rat → Option Rat → Bool
+  | some a, some b => decide (a ≠ b)
+  | _, _ => true
+
 /-- `Number::max_with`: `if other > self { other } else { self }` -/
 def maxWith (a b : Rat) : Rat := if b > a then b else a
 /-- `Number::min_with`: `if other < self { other } else { self }` -/
